@@ -202,18 +202,23 @@ Section NumS.
     - destruct acc; apply IH; left; discriminate.
   Qed.
 
+  Lemma ninsert_length x l : length (ninsert x l) = S (length l).
+  Proof. induction l; simpl; [reflexivity|]. destruct (nle x a); simpl; auto. Qed.
+  Lemma sortN_length l : length (sortN l) = length l.
+  Proof. induction l; simpl; [reflexivity|]. now rewrite ninsert_length, IHl. Qed.
+
   Lemma agg_num_np g vs : vs <> [] -> agg_num g vs <> Panic.
   Proof.
     intros Hne. assert (Hlen : (0 < length vs)%nat) by (destruct vs; [congruence|simpl; lia]).
     destruct g; simpl; try discriminate.
     - destruct (1 <? length vs)%nat.
-      + pose proof (pick_some flt None vs (or_intror Hne)). destruct (pick flt None vs); [discriminate|congruence].
+      + pose proof (pick_some Lt None vs (or_intror Hne)). destruct (pick Lt None vs); [discriminate|congruence].
       + destruct vs; discriminate.
     - destruct (1 <? length vs)%nat.
-      + pose proof (pick_some fgt None vs (or_intror Hne)). destruct (pick fgt None vs); [discriminate|congruence].
+      + pose proof (pick_some Gt None vs (or_intror Hne)). destruct (pick Gt None vs); [discriminate|congruence].
       + destruct vs; discriminate.
     - destruct (existsb _ vs); [discriminate|].
-      destruct (med_indices (sortN vs) (length vs)) as [[x Hx] Hy]; [apply isort_length|assumption|].
+      destruct (med_indices (sortN vs) (length vs)) as [[x Hx] Hy]; [apply sortN_length|assumption|].
       destruct (Nat.even (length vs)).
       + destruct (Hy eq_refl) as [y Hy']. rewrite Hx, Hy'. discriminate.
       + rewrite Hx. discriminate.
